@@ -174,6 +174,8 @@ pub fn frame_set(name: &str) -> Vec<FrameSpec> {
                 Blk::Raw(fresh(30, 41)),
                 Blk::Comp { lits: Lits::Huf(b"abcdefghabcaab".to_vec(), false, None, None), seqs: vec![(3, 1, 5), (4, 2, 4), (0, 3, 6), (5, 20 + 3, 3)], modes: rep3.clone() },
             ]));
+            // the first sequence is "repeat offset 1 minus one" with no literals: depends on the dictionary's first offset alone
+            v.push(with("dA_rep3", &da, false, vec![Blk::Comp { lits: Lits::Raw(fresh(2, 45)), seqs: vec![(0, 3, 4)], modes: pre.clone() }]));
             v.push(with("dB_plain", &db, true, vec![Blk::Comp { lits: Lits::Raw(fresh(5, 42)), seqs: vec![(5, 5 + 40 + 3, 12)], modes: pre.clone() }, Blk::Rle(7, 100)]));
             // names a dictionary nobody registered
             let mut missing = with("d_missing", &da, false, vec![Blk::Raw(fresh(4, 43))]);
